@@ -204,8 +204,18 @@ fn date(rng: &mut Rng, c: &Cfg, with_year: bool) -> String {
 
 /// day offsets of dated bounds beyond a year (the pairing windows of `MonthdayRange::Date` are centred
 /// on the year the bound has to come from; these offsets move it away from the evaluated day's year)
+/// and, now and then, beyond what chrono can represent (about 95 700 000 days on either side of the evaluated
+/// days: the year the bound has to come from, or a year of the window around it, does not exist; the shifted
+/// days are pinned at `NaiveDate::MIN`/`MAX`)
 fn big_day_offset(rng: &mut Rng) -> String {
-    let n = *rng.pick(&[366, 400, 500, 730, 770, 1100, 1500, 3000, 100000]);
+    let n: i64 = if rng.chance(1, 6) {
+        *rng.pick(&[
+            92_000_000, 95_003_000, 95_006_400, 95_700_000, 96_485_000, 96_488_000, 100_000_000, 200_000_000,
+            1_000_000_000,
+        ])
+    } else {
+        *rng.pick(&[366, 400, 500, 730, 770, 1100, 1500, 3000, 100000])
+    };
     format!(" {}{} days", if rng.chance(1, 2) { "+" } else { "-" }, n)
 }
 
